@@ -724,6 +724,99 @@ def gen_hole_spec(rng):
 
 
 # --------------------------------------------------------------------------
+# history oracle: the same aperture object re-used after the caller changed its position buffer
+# --------------------------------------------------------------------------
+def gen_history(rng):
+    cls = rng.choice(PIXEL_CLASSES)
+    ny, nx = rng.randint(8, 20), rng.randint(8, 20)
+    d, e = gen_image(rng, ny, nx, False, False)
+    form = rng.choice(['f64', 'f64', 'f64', 'int', 'list', 'tuple', 'f64scalar'])
+    npos = 1 if form == 'f64scalar' else rng.randint(1, 4)
+
+    def pos():
+        p = [rng.uniform(-2, nx + 1), rng.uniform(-2, ny + 1)]
+        return [float(round(v)) for v in p] if form == 'int' else p
+    return {'cls': cls, 'params': gen_params(rng, cls, False), 'data': d, 'err': e,
+            'mask': gen_mask(rng, ny, nx), 'method': rng.choice(['exact', 'center', 'subpixel']), 'subpixels': 3,
+            'form': form, 'pos0': [pos() for _ in range(npos)], 'pos1': [pos() for _ in range(npos)],
+            'pos2': [pos() for _ in range(npos)], 'op': rng.choice(['iadd', 'assign'])}
+
+
+def history_oracle(h):
+    """build an aperture from a caller-owned position container, do photometry (caches filled), change the
+    container in place, do photometry again with the SAME object, then assign aper.positions: at every stage
+    the reported centres, the sums/errors/areas, the one-at-a-time results aper[k] and a fresh aperture at
+    aper.positions must agree."""
+    import photutils.aperture as pa
+    from photutils.aperture import aperture_photometry
+    data, err = _arr(h['data']), _arr(h['err'])
+    mask = None if h['mask'] is None else np.array(h['mask'], bool)
+    kw = dict(method=h['method'], subpixels=h['subpixels'])
+    cls = getattr(pa, h['cls'])
+    form = h['form']
+    p0, p1, p2 = (np.array(h[k], float) for k in ('pos0', 'pos1', 'pos2'))
+    if form == 'f64':
+        buf = p0.copy()
+    elif form == 'f64scalar':
+        buf = p0[0].copy()
+    elif form == 'int':
+        buf = p0.astype(int)
+    elif form == 'list':
+        buf = [list(p) for p in p0]
+    else:
+        buf = tuple(tuple(p) for p in p0)
+    viol = []
+
+    def results(aper):
+        t = aperture_photometry(data, aper, error=err, mask=mask, **kw)
+        s, e = aper.do_photometry(data, error=err, mask=mask, **kw)
+        a = np.atleast_1d(aper.area_overlap(data, mask=mask, **kw))
+        return t, s, e, a
+
+    def consistent(aper, stage):
+        t, s, e, a = results(aper)
+        pos = np.atleast_2d(aper.positions)
+        if not (same(colvals(t, 'xcenter'), pos[:, 0]) and same(colvals(t, 'ycenter'), pos[:, 1])):
+            viol.append((f'history:{stage}:centers', 'xcenter/ycenter differ from aper.positions', {}))
+        if not (same(colvals(t, 'aperture_sum'), s) and same(colvals(t, 'aperture_sum_err'), e)):
+            viol.append((f'history:{stage}:table-ne-do_photometry', 'table columns differ from do_photometry', {}))
+        fresh = cls(np.array(aper.positions, float), **h['params'])
+        _, sf, ef, af = results(fresh)
+        if not (same(sf, s) and same(ef, e) and same(af, a)):
+            viol.append((f'history:{stage}:stale', 'sum/err/area_overlap of a re-used aperture object differ from a fresh '
+                         'aperture at the positions it reports (stale cached masks)', {}))
+        if not aper.isscalar:
+            for k in range(len(aper)):
+                _, s1, e1, a1 = results(aper[k])
+                if not (same(s1, s[k:k + 1]) and same(e1, e[k:k + 1]) and same(a1, a[k:k + 1])):
+                    viol.append((f'history:{stage}:single', 'aper[k] differs from entry k of the all-at-once result',
+                                 {'position': k}))
+                    break
+
+    with warnings.catch_warnings():
+        warnings.simplefilter('ignore')
+        aper = cls(buf, **h['params'])
+        consistent(aper, 'initial')
+        # the caller re-uses its container
+        if isinstance(buf, np.ndarray):
+            new = p1[0] if form == 'f64scalar' else p1
+            if h['op'] == 'iadd':
+                buf += (new - buf).astype(buf.dtype)
+            else:
+                buf[...] = new
+        elif isinstance(buf, list):
+            for i, p in enumerate(p1):
+                buf[i][0], buf[i][1] = float(p[0]), float(p[1])
+        consistent(aper, 'after-caller-buffer-change')
+        # the documented way of moving an aperture
+        aper.positions = p2[0] if form == 'f64scalar' else p2
+        consistent(aper, 'after-positions-assignment')
+        if not same(np.atleast_2d(aper.positions), p2):
+            viol.append(('history:assignment-ignored', 'aper.positions = new did not take effect', {}))
+    return viol
+
+
+# --------------------------------------------------------------------------
 # Coq terms
 # --------------------------------------------------------------------------
 def zval(v, scale):
@@ -867,7 +960,7 @@ def run(ctx):
         'arbitrary-double cases (exact / any subpixels) through V with the rigorous bound; six pixel classes, '
         'scalar / 1-4 positions (inside, pixel centre/corner, straddling an edge or corner, box touching the frame, '
         'far outside), 1-3 apertures, masks (none / random / all), NaN/inf pixels, bare array / NDData / Quantity, float64 / float32 / int16 / int32 / uint8 storage; '
-        'sky apertures through a TAN WCS; hole images under exact elliptical annuli; '
+        'sky apertures through a TAN WCS; hole images under exact elliptical annuli; re-used aperture objects after the caller changed its position container in place / after aper.positions = new; '
         'non-trivial = at least one position whose pixel set is non-empty')
     ctx.assumptions += [
         'weights W and the bounding box are taken from the implementation (aperture.to_mask); their geometric '
@@ -937,12 +1030,32 @@ def run(ctx):
         for sig, what, detail in viol:
             report(ctx, seen, sig, what, {'spec': spec, 'sky': True, 'where': detail})
     ctx.support('sky_eq_to_pixel(wcs)', n_sky)
+    # re-used aperture objects (position container changed by the caller, positions re-assigned)
+    n_hist = 36 if quick else 400
+    for _ in range(n_hist):
+        h = gen_history(rng)
+        try:
+            viol = history_oracle(h)
+        except Exception as ex:  # noqa: BLE001
+            viol = [('history:exception', f'{type(ex).__name__}: {str(ex)[:150]}', {})]
+        ctx.stat('history_class', h['cls'])
+        ctx.stat('history_form', h['form'] + ':' + h['op'])
+        ctx.count_case(h, True)
+        for sig, what, detail in viol:
+            report(ctx, seen, sig, what, {'history': h, 'where': detail})
+    ctx.support('reused_aperture_consistency', n_hist)
 
 
 def replay(obj):
     r = obj['replay']
-    spec = r['spec']
     import random
+    if 'history' in r:
+        viol = history_oracle(r['history'])
+        for sig, what, detail in viol:
+            print('FAIL', sig, what, detail)
+        print('property FAILS on this input' if viol else 'property holds on this input')
+        return 1 if viol else 0
+    spec = r['spec']
     if r.get('sky'):
         viol, _ = sky_oracle(spec)
     else:
